@@ -689,8 +689,8 @@ pub fn c09_chain() -> Box<dyn DynSub> {
 #[derive(Clone, Debug, Serialize, Deserialize)]
 pub struct OrdSet {
     pub x: i128,
-    /// (scale index into EXACT_SCALES, offset from x in ns)
-    pub items: Vec<(usize, i128)>,
+    /// (scale index into EXACT_SCALES, offset from x in ns, route by which the operand is obtained from the library)
+    pub items: Vec<(usize, i128, u8)>,
 }
 
 const EXACT_SCALES: [usize; 7] = [S_TAI, S_TT, S_UTC, S_GPST, S_GST, S_BDT, S_QZSST];
@@ -703,7 +703,7 @@ fn ordset_strategy() -> BS<OrdSet> {
         (1, near_offset()),
         (1, (any::<bool>(), log_mag(66)).prop_map(|(s, m)| if s { -m } else { m }).boxed()),
     ]);
-    (tai_count_any(), prop::collection::vec((0usize..7, off), 2..=12)).prop_map(|(x, items)| OrdSet { x, items }).boxed()
+    (tai_count_any(), prop::collection::vec((0usize..7, off, 0u8..8), 2..=12)).prop_map(|(x, items)| OrdSet { x, items }).boxed()
 }
 
 fn ordset_oracle(c: &OrdSet) -> Verdict {
@@ -711,7 +711,7 @@ fn ordset_oracle(c: &OrdSet) -> Verdict {
     // (instant on the TAI axis, epoch)
     let mut v: Vec<(i128, Epoch)> = vec![];
     let mut inside = false;
-    for &(si, off) in &c.items {
+    for &(si, off, route) in &c.items {
         let s = EXACT_SCALES[si % 7];
         let t = c.x + off;
         let Some(cnt) = from_tai(s, t) else {
@@ -721,7 +721,28 @@ fn ordset_oracle(c: &OrdSet) -> Verdict {
         if !(cnt > DMIN + 2 * NPC && cnt < DMAX - 2 * NPC) {
             continue;
         }
-        v.push((t, Epoch::from_duration(mk(cnt), SCALES[s])));
+        // the operand as the library itself produces it: built from the count, or as the result of a negation, an absolute
+        // value, a sum, an epoch shift, or a conversion from another exact scale (all exact by C01 / C04 / C05 / C06)
+        let ts = SCALES[s];
+        let e = match route {
+            1 if in_open_range(-cnt) => lib!(Epoch::from_duration(-mk(-cnt), ts)),
+            2 if cnt > 0 => lib!(Epoch::from_duration(mk(-cnt).abs(), ts)),
+            3 => lib!(Epoch::from_duration(mk(cnt - 1) + mk(1), ts)),
+            4 => lib!(Epoch::from_duration(mk(cnt - NPC), ts) + mk(NPC)),
+            5 => lib!(Epoch::from_duration(mk(cnt + 7), ts) - mk(7)),
+            6 | 7 => {
+                let s2 = EXACT_SCALES[(si + 1 + (route as usize - 6) * 3) % 7];
+                match from_tai(s2, t) {
+                    Some(c2) if c2 > DMIN + 2 * NPC && c2 < DMAX - 2 * NPC => lib!(Epoch::from_duration(mk(c2), SCALES[s2]).to_time_scale(ts)),
+                    _ => Epoch::from_duration(mk(cnt), ts),
+                }
+            }
+            _ => Epoch::from_duration(mk(cnt), ts),
+        };
+        if e.time_scale != ts || count(e.duration) != cnt {
+            return Verdict::Skip("an operand route produced another value than intended (the subject of C01 / C04 / C05 / C06, not of C12)");
+        }
+        v.push((t, e));
     }
     if v.len() < 2 {
         return Verdict::Skip("fewer than two operands have a count");
